@@ -21,7 +21,7 @@ ASSUMPTIONS = ["fshift is linear in its signal argument (monitored on random com
                "integer shifts or Nyquist-free signals"]
 REQUIRED = {"contract:fshift_shape_dtype": 500, "contract:fshift_input_untouched": 500, "roll_checked": 200,
             "additivity_checked": 50, "analytic_checked": 50, "corrmax_checked": 50, "pertrace_checked": 50, "shift_vector_reuse_checked": 30, "corrmax_large_delays": 20, "corrmax_monophasic": 10, "nonfinite_inputs": 50,
-            "shift_waveform_checked": 3, "parabolic_checked": 50, "phase_estimates": 40}
+            "shift_waveform_checked": 3, "parabolic_checked": 50, "phase_estimates": 40, "phase_estimates_large_delay": 10}
 CASE_TIMEOUT = 200.0
 
 _VIOL = []
@@ -477,6 +477,10 @@ def run_case(case):
             spike = np.append(x, np.zeros(npad))
             fs = (30000, 2500, 25000, 62500, 30000.27)[(case["k"] + i) % 5]
             sh = float(rng.uniform(-6, 6))
+            if i % 3 == 2:
+                # delays of many samples (round 20): the cross-spectrum phase runs through several turns inside the band the slope is fitted on
+                sh = float(rng.choice([-1, 1]) * rng.uniform(9, 30))
+                res.count("phase_estimates_large_delay")
             label = f"wave_shift_phase n={n}+{npad} fs={fs} applied={sh:.3f}"
             try:
                 spike2 = fshift(spike, sh)
